@@ -28,6 +28,8 @@ def addAll {α} [BEq α] (a b : List α) : List α := a.foldl (fun acc x => if a
 def tokOf (s : St) : Ev → Option (List String)
   | .allocOk _ => some ["A"]
   | .allocFail _ => some ["N"]
+  | .rawOk _ => none
+  | .rawFail _ => none
   | .resizeOk _ => some ["R"]
   | .resizeFail _ => some ["RN"]
   | .resizeKeep _ => some ["RN"]
@@ -84,7 +86,7 @@ partial def sim (depth : Nat) (calls : List String) : Cfg → List Pt → SimRes
     let re := sim depth calls e S
     { norm := addAll rt.norm re.norm, brk := addAll rt.brk re.brk, cont := addAll rt.cont re.cont, rets := rt.rets ++ re.rets }
   | .ifnull v t e, S =>
-    let rt := sim depth calls t (S.filter fun p => p.1.st v != .live && p.1.st v != .closed)
+    let rt := sim depth calls t (S.filter fun p => !(p.1.st v).nonNull)
     let re := sim depth calls e (S.filter fun p => p.1.st v != .null)
     { norm := addAll rt.norm re.norm, brk := addAll rt.brk re.brk, cont := addAll rt.cont re.cont, rets := rt.rets ++ re.rets }
   | .ifcode t e, S =>
